@@ -492,7 +492,21 @@ func diffClass(consumed, reser []byte) string {
 	case len(consumed) == len(reser) && rb <= 1 && pb >= 2:
 		return "noncanonical-bool"
 	case pb >= 0xfd && len(reser) < len(consumed):
-		return "noncanonical-varuint"
+		// read the bytes at d as a var-uint
+		w := varWidth(pb)
+		if d+w <= len(consumed) {
+			var v uint64
+			for i := w - 1; i >= 1; i-- {
+				v = v<<8 | uint64(consumed[d+i])
+			}
+			switch {
+			case w == 9 && v >= 1<<63:
+				return "count-over-int63" // a count ≥ 2^63 was taken for something else (int conversion)
+			case len(varuint(v)) != w:
+				return "noncanonical-varuint"
+			}
+		}
+		return "resized"
 	case len(consumed) != len(reser):
 		return "resized"
 	}
